@@ -653,6 +653,30 @@ func genExts(r *rand.Rand, p *projSpec, cycles bool) {
 			p.Exts[i].Sel = -1 // reached through another project only
 		}
 	}
+	if !cycles && r.IntN(3) == 0 {
+		// two directed shapes, three projects, all of them direct requirements of the root:
+		for len(p.Exts) < 3 {
+			p.Exts = append(p.Exts, extSpec{Sel: r.IntN(len(extVersions)), Val: genValue(r, valueKinds[:14]), Lit: genValue(r, literalKinds), Loads: -1})
+		}
+		ne = len(p.Exts)
+		for i := range p.Exts {
+			if p.Exts[i].Sel < 0 {
+				p.Exts[i].Sel = r.IntN(len(extVersions))
+			}
+			p.Exts[i].Same = false
+		}
+		p.Exts[0].Loads, p.Exts[0].ViaGlobal = 1, r.IntN(2) == 0
+		if r.IntN(2) == 0 {
+			// (a) the odd versions of project 0 put project 2 behind the alias that otherwise
+			// names project 1; both stay in the build list whichever is behind it
+			p.Exts[0].AltDep = 3
+		} else {
+			// (b) a diamond: project 1 is required by the root and by project 0, at versions that
+			// differ, and requires project 2 - more in some older version than in a newer one
+			p.Exts[0].AltDep = 0
+			p.Exts[1].Loads, p.Exts[1].ViaGlobal = 2, r.IntN(2) == 0
+		}
+	}
 	if cycles && ne > 1 && r.IntN(4) == 0 {
 		// the last project loads the first: a load cycle (and a requirement cycle) across projects
 		p.Exts[ne-1].Loads = r.IntN(ne - 1)
